@@ -22,8 +22,8 @@ ID = "C19"
 TITLE = "planner logs yield exactly the plan's steps"
 
 COUNTS = [0, 1, 2, 9, 10, 11, 99, 100, 101, 150]
-NAMES = ["A", "MOVE-UP", "load_2", "x1"]
-ARGS = ["A1", "loc-2", "i_3", "7"]
+NAMES = ["A", "MOVE-UP", "load_2", "x1", "start-waiting", "FOUND-PLAN"]  # the last two contain words planners print
+ARGS = ["A1", "loc-2", "i_3", "7", "WAITING_ROOM1", "step-0"]
 NCOMBO = len(NAMES) * 4  # (name, arity 0..3)
 BOUNDARY = [0, 1, 9, 10, 99, 100]  # plus the last step
 
@@ -81,8 +81,8 @@ GLOBAL_SITES = [
 ]
 LOCAL_KINDS = ["align", "colon", "argsep"]  # the same parameter changed on one boundary line only
 
-RULE = ("plans: step counts {0,1,2,9,10,11,99,100,101,150} x 16 rotations of the (name, arity) alphabet "
-        "{A, MOVE-UP, load_2, x1} x {0..3 arguments from A1, loc-2, i_3, 7} (step i carries combination (i+rot) mod 16, "
+RULE = ("plans: step counts {0,1,2,9,10,11,99,100,101,150} x 24 rotations of the (name, arity) alphabet "
+        "{A, MOVE-UP, load_2, x1, start-waiting, FOUND-PLAN} x {0..3 arguments from A1, loc-2, i_3, 7, WAITING_ROOM1, step-0} (step i carries combination (i+rot) mod 24, "
         "so every combination occurs at every position, in particular at 9/10 and 99/100); one case = (plan, header, "
         "trailer) with header in {none, Metric-FF banner, banner + 'task 3: x' / 'run 10: started ok' / '    4: restart' lines, banner + "
         "'clock 12:30' / 'weight 5:(1)' lines} and trailer in {blank + time spent, plan cost + time spent, blank-padded "
@@ -121,8 +121,8 @@ def plan(n, rot):
     steps = []
     for i in range(n):
         c = (i + rot) % NCOMBO
-        name, arity = NAMES[c % 4], c // 4
-        steps.append([name] + [ARGS[(c + i // NCOMBO + j) % 4] for j in range(arity)])
+        name, arity = NAMES[c % len(NAMES)], c // len(NAMES)
+        steps.append([name] + [ARGS[(c + i // NCOMBO + j) % len(ARGS)] for j in range(arity)])
     return steps
 
 
